@@ -31,15 +31,21 @@ class Callable(object):
                 if has:
                     D.setdefault(n, dec(v))
         self.ns = {'__name__': '__kvstub__', '_CALLS': [], '_D': D}
-        sig = spec_src(spec, self_first=(kind in ('method', 'instance', 'classmethod', 'classmethod_via_instance')))
-        if kind == 'method':
-            src = 'class C(object):\n    def m(%s):\n        _CALLS.append(1)\n' % sig
+        sig = spec_src(spec, self_first=(kind in ('method', 'instance', 'classmethod', 'classmethod_via_instance', 'method_of_falsy_instance', 'instance_with_name')))
+        if kind in ('method', 'method_of_falsy_instance'):
+            # (an instance that is "empty" - it has __len__() == 0 - is still an instance)
+            extra = '    def __len__(self):\n        return 0\n' if kind == 'method_of_falsy_instance' else ''
+            src = 'class C(object):\n%s    def m(%s):\n        _CALLS.append(1)\n' % (extra, sig)
             exec(src, self.ns)
             self.obj = self.ns['C']().m
-        elif kind == 'instance':
+        elif kind in ('instance', 'instance_with_name'):
             src = 'class C(object):\n    def __call__(%s):\n        _CALLS.append(1)\n' % sig
             exec(src, self.ns)
             self.obj = self.ns['C']()
+            if kind == 'instance_with_name':
+                # what functools.update_wrapper(self, func) does to a class-based decorator object
+                self.obj.__name__ = 'wrapped_name'
+                self.obj.__doc__ = 'doc'
         elif kind in ('classmethod', 'classmethod_via_instance'):
             src = 'class C(object):\n    @classmethod\n    def m(%s):\n        _CALLS.append(1)\n' % sig
             exec(src, self.ns)
@@ -111,7 +117,8 @@ VALS = [1, 'a', None, 2.5, (1, 2)]
 def gen_case(rng, prop='C19'):
     spec = gen_spec(rng)
     kind = rng.choice(['func', 'func', 'method', 'instance', 'func', 'func', 'method', 'instance',
-                       'classmethod', 'classmethod_via_instance', 'staticmethod', 'wrapped', 'async', 'generator', 'lambda'])
+                       'classmethod', 'classmethod_via_instance', 'staticmethod', 'wrapped', 'async', 'generator', 'lambda',
+                       'method_of_falsy_instance', 'instance_with_name'])
     case = {'spec': spec, 'kind': kind, 'seed': rng.randrange(1 << 30)}
     if kind == 'wrapped':
         case['wspec'] = gen_spec(rng)
@@ -187,7 +194,7 @@ def mechs(case, tgt, args, kwds):
     signature() pairs the fixed values with a parameter list that still contains 'self' (shifted by
     one), so a clash between a positionally fixed parameter and a keyword goes unnoticed.  The
     witness must show exactly that: Python rejects the call with "multiple values for argument"."""
-    if case['kind'] in ('method', 'instance', 'classmethod', 'classmethod_via_instance') and tgt.pa:
+    if case['kind'] in ('method', 'instance', 'classmethod', 'classmethod_via_instance', 'method_of_falsy_instance', 'instance_with_name') and tgt.pa:
         try:
             tgt.obj(*args, **kwds)
         except TypeError as e:
